@@ -3,6 +3,8 @@ package keeper
 import (
 	"github.com/cosmos/cosmos-sdk/codec"
 	codectypes "github.com/cosmos/cosmos-sdk/codec/types"
+	sdk "github.com/cosmos/cosmos-sdk/types"
+	paramstypes "github.com/cosmos/cosmos-sdk/x/params/types"
 
 	"github.com/MinterTeam/mhub2/module/x/oracle/types"
 )
@@ -12,4 +14,9 @@ func zzRealCodec() codec.Codec {
 	reg := codectypes.NewInterfaceRegistry()
 	types.RegisterInterfaces(reg)
 	return codec.NewProtoCodec(reg)
+}
+
+// zzSubspace: natively the real params subspace over the harness store; the engine substitutes its params model.
+func zzSubspace(cdc codec.Codec, key, tkey sdk.StoreKey) paramstypes.Subspace {
+	return paramstypes.NewSubspace(cdc, codec.NewLegacyAmino(), key, tkey, types.ModuleName).WithKeyTable(types.ParamKeyTable())
 }
